@@ -14,6 +14,11 @@ import os, sys, json, time, shutil, subprocess, hashlib, re, random, glob, tempf
 VERIF = os.path.dirname(os.path.dirname(os.path.abspath(__file__)))
 REPO = os.environ.get("VERIF_REPO", "/repo")
 GUARD = "POWERMAN_VERIF"
+# runs against a modified copy (VERIF_REPO=...: mutation tests, seeded changes) must not overwrite the committed
+# evidence / replay files of the unchanged tree
+_ALT = "VERIF_REPO" in os.environ
+EVIDENCE_DIR = os.environ.get("VERIF_EVIDENCE_DIR", os.path.join(os.environ.get("TMPDIR", "/tmp"), "pmv-alt-evidence") if _ALT else os.path.join(VERIF, "evidence"))
+REPLAY_DIR = os.environ.get("VERIF_REPLAY_DIR", os.path.join(os.environ.get("TMPDIR", "/tmp"), "pmv-alt-replay") if _ALT else os.path.join(VERIF, "replay"))
 FORBIDDEN = re.compile(
     r"\b(Admitted|admit|Axiom|Axioms|Parameter|Parameters|Conjecture|Conjectures|Admit Obligations|"
     r"Unset Guard Checking|Unset Positivity Checking|Unset Universe Checking|bypass_check|"
@@ -391,7 +396,7 @@ class Verdict:
         ctx = self.ctx
         pid = ctx.pid
         known = [k for k in load_known() if k.get("property") == pid and k.get("status", "known") == "known"]
-        rdir = os.path.join(VERIF, "replay")
+        rdir = REPLAY_DIR
         os.makedirs(rdir, exist_ok=True)
         lines, rc = [], 0
         seen_known, new = {}, {}
@@ -451,8 +456,8 @@ class Verdict:
         cov.update(self.extra)
         ev = dict(property_id=ctx.pid, tier=ctx.tier, seed=ctx.seed, level="proof", coverage=cov,
                   assumptions=tb, wall_s=round(time.time() - ctx.t0, 2), violations=nviol)
-        os.makedirs(os.path.join(VERIF, "evidence"), exist_ok=True)
-        with open(os.path.join(VERIF, "evidence", ctx.pid + ".json"), "w") as fh:
+        os.makedirs(EVIDENCE_DIR, exist_ok=True)
+        with open(os.path.join(EVIDENCE_DIR, ctx.pid + ".json"), "w") as fh:
             json.dump(ev, fh, indent=1, default=str)
 
 
